@@ -20,8 +20,12 @@ RULE = (
     "lookup; literal members from int/str/mixed families, optionally containing a group of ==-equal literals of "
     "different type (1/True, 0/False, IntEnum member/int/bool) in either order at the front, back or split; "
     "optionally one class or parametrised/structural member; spelled member-wise or as one merged Literal[...]): a "
-    "seed-independent core plus a seeded sample of the product; every literal member is also tried as object; both annotation "
-    "spellings (builtin generics / typing.*) evaluated; routes: runtime.is_assignable, get_assignability_error, and the "
+    "seed-independent core plus a seeded sample of the product; every literal member is also tried as object. Objects per "
+    "type: U, inhabitants, NEAR-MISSES (universe.near_miss_pairs: a member with one possibly nested component replaced "
+    "by a non-member of the component type, preferring one that is ==-equal but of another type, alone and next to "
+    "the unmodified original, e.g. [[0], [0.0]]), and namedtuple instances for tuple/sequence-like targets. Both annotation "
+    "spellings (builtin generics / typing.*) evaluated, plus a third one spelling un-parameterised generic classes by "
+    "their typing alias (Tuple, List, Dict, ...) when the term mentions one; routes: runtime.is_assignable, get_assignability_error, and the "
     "checker on `x: T = <literal>` (literal-display objects only). Non-trivial = membership decided (not UNKNOWN) and "
     "o's top constructor matches T's top constructor (verdict depends on something below the top level); distinct by "
     "(render(T), source(o), route)."
@@ -35,9 +39,11 @@ ASSUMPTIONS = [
 ]
 FLOORS = {
     "quick": {"distinct_nontrivial": 8000, "runtime_pairs": 60000, "assign_lines": 10000, "member_true": 5000, "member_false": 20000,
-              "wide_union_types": 65, "wide_union_pairs": 5000, "wide_union_cross_type_equal_pairs": 180},
+              "wide_union_types": 65, "wide_union_pairs": 5000, "wide_union_cross_type_equal_pairs": 180,
+              "near_miss_objects": 1300, "near_miss_objects_nested": 400, "tuple_subclass_objects": 1300, "bare_typing_alias_types": 45},
     "thorough": {"distinct_nontrivial": 50000, "runtime_pairs": 400000, "assign_lines": 60000,
-                 "wide_union_types": 65, "wide_union_pairs": 5000, "wide_union_cross_type_equal_pairs": 180},
+                 "wide_union_types": 65, "wide_union_pairs": 5000, "wide_union_cross_type_equal_pairs": 180,
+                 "near_miss_objects": 1300, "near_miss_objects_nested": 400, "tuple_subclass_objects": 1300, "bare_typing_alias_types": 45},
 }
 BATCH = 200
 
@@ -169,9 +175,12 @@ def blame(o, t: Ty, accepts, style: int = 0, spelling_only: bool = False) -> str
         return "element-typed-container<-frozenset"
     if spelling_only:
         # the other spellings of the same term are judged correctly: whatever else the term contains is not the cause
-        return f"{leaf_desc(t)}<-{type(o).__name__}|bare-typing-alias-spelling-only"
+        return f"{leaf_desc(t)}<-{'tuple' if isinstance(o, tuple) else type(o).__name__}|bare-typing-alias-spelling-only"
     if isinstance(o, tuple) and type(o) is not tuple and t.kind in ("VarTuple", "Seq", "Iter", "Coll"):
         return "element-typed-container<-tuple-subclass-instance"
+    if isinstance(o, (list, tuple)) and t.kind in ("List", "VarTuple", "Seq", "Iter", "Coll") and _has_cross_type_equal_elements(o):
+        # elements that are == but not the same literal are merged before they are compared with the element type
+        return "element-typed-container<-elements-equal-across-types"
     if t.kind != "MixTuple" and "MixTuple" in ty.kinds(top) and (
         isinstance(o, tuple) or t.kind not in ("Cls", "Lit", "NoneT", "NewType", "TypedDict")
     ):
@@ -179,16 +188,14 @@ def blame(o, t: Ty, accepts, style: int = 0, spelling_only: bool = False) -> str
         return "MixTuple<-tuple"
     if t.kind == "MixTuple" and isinstance(o, tuple):
         return "MixTuple<-tuple"
-    if isinstance(o, (list, tuple)) and t.kind in ("List", "VarTuple", "Seq", "Iter", "Coll") and _has_cross_type_equal_elements(o):
-        # elements that are == but not the same literal are merged before they are compared with the element type
-        return "element-typed-container<-elements-equal-across-types"
     if t.kind == "TypedDict" and isinstance(o, dict):
         declared = {n for n, _ in t.args[0]}
         extra = "/extra-keys" if set(o) - declared else "/declared-keys"
     if t.kind == "Union" and cross_type_equal(o, t):
         # no single member disagrees, and the object collides (==, hash) with a member of another type
         return f"{leaf_desc(t)}<-cross-type-equal-literal"
-    return f"{leaf_desc(t)}<-{type(o).__name__}{extra}"
+    odesc = "tuple-subclass-instance" if isinstance(o, tuple) and type(o) is not tuple else type(o).__name__
+    return f"{leaf_desc(t)}<-{odesc}{extra}"
 
 
 def runtime_accepts(o, t: Ty, style: int = 0) -> bool:
@@ -383,7 +390,9 @@ def shard(ctx) -> None:
         if t.kind == "Union" and len(t.args) >= 9:
             pick = pos[:3] + neg[:3] + ctx.rng.sample(neg_other, min(1, len(neg_other)))  # many such types: fewer lines each
         else:
-            pick = pos[:6] + neg[:8] + ctx.rng.sample(neg_other, min(2, len(neg_other)))
+            near_srcs = {it.src for it in near}
+            neg_near = [x for x in neg if x[0].src in near_srcs][:2]  # nested near-misses come last in `neg`: reserve slots
+            pick = pos[:6] + [x for x in neg if x not in neg_near][: 8 - len(neg_near)] + neg_near + ctx.rng.sample(neg_other, min(2, len(neg_other)))
         for it, m in pick:
             assign_work.append((t, ctx.rng.randrange(3 if ty.render(t, 2) != ty.render(t, 1) else 2), it, m))
         if len(ctx.samples) < 3 and decided:
